@@ -870,9 +870,36 @@ func c20Fold(c *Ctx) {
 				okRet = false
 			}
 		}
-		c.R.Decide(okStep && okInit && okRet, rule, fi.Name, "fold", c.pos(fi),
+		// every answer comes out of that loop: a path that returns without having been through it (a shortcut for long
+		// argument lists, a recursive split, a special case) computes something else - floating-point + and * are not
+		// associative, so even a mathematically equal regrouping is a different result - unless there is nothing to fold
+		okAll, whyAll := true, ""
+		lenV := ToPoly(&Term{Op: "builtin", Sym: "len", Args: []*Term{v}})
+		for _, p := range ps {
+			for i := range p.Events {
+				if e := &p.Events[i]; (e.Kind == "call" || e.Kind == "go" || e.Kind == "defer") && e.Name != "builtin.len" {
+					okAll, whyAll = false, "calls "+e.Name+" ("+p.CondString()+")"
+				}
+			}
+			if p.End != EndReturn {
+				continue
+			}
+			if _, entered := p.LoopAt[li.Hdr]; entered {
+				continue
+			}
+			empty := false
+			for _, cd := range p.Conds {
+				if pl, kind, isInt := cd.Rel().IntNorm(); isInt && (kind == "=" && pl.Equal(canonSign(lenV)) || kind == ">" && pl.Equal(polyConst(1).Add(lenV, -1))) {
+					empty = true
+				}
+			}
+			if !(empty && len(p.Rets) == 1 && (p.Rets[0].IsConst(sp.start) || (sp.start == "0" && p.Rets[0].Op == "zero"))) {
+				okAll, whyAll = false, "a path ("+p.CondString()+") answers without folding over the arguments in order"
+			}
+		}
+		c.R.Decide(okStep && okInit && okRet && okAll, rule, fi.Name, "fold", c.pos(fi),
 			fmt.Sprintf("starts at %s, accumulates with %s over every argument in order, returns the accumulator", sp.start, sp.op),
-			fmt.Sprintf("start=%v step=%v (next=%s) return=%v", okInit, okStep, nx, okRet))
+			fmt.Sprintf("start=%v step=%v (next=%s) return=%v %s", okInit, okStep, nx, okRet, whyAll))
 	}
 }
 
